@@ -21,6 +21,12 @@ UNITS = [
     {'name': 'bfv.core@u16', 'backend': 'verus', 'tier': 'quick'},
     {'name': 'bfv.core@u32', 'backend': 'verus', 'tier': 'quick'},
     {'name': 'bfv.core@u128', 'backend': 'verus', 'tier': 'quick'},
+    {'name': 'bfv.iter@u64', 'backend': 'verus', 'tier': 'quick'},
+    {'name': 'bfv.iter@usize', 'backend': 'verus', 'tier': 'quick'},
+    {'name': 'bfv.iter@u8', 'backend': 'verus', 'tier': 'quick'},
+    {'name': 'bfv.iter@u16', 'backend': 'verus', 'tier': 'quick'},
+    {'name': 'bfv.iter@u32', 'backend': 'verus', 'tier': 'quick'},
+    {'name': 'bfv.iter@u128', 'backend': 'verus', 'tier': 'quick'},
     {'name': 'bfv.copy@u64', 'backend': 'verus', 'tier': 'quick'},
     {'name': 'bfv.copy@usize', 'backend': 'verus', 'tier': 'quick'},
     {'name': 'bfv.copy@u8', 'backend': 'verus', 'tier': 'quick'},
